@@ -753,7 +753,7 @@ def plan(chk, rng):
     A = [(0, CA)]
     AB = [(0, CA), (1, CB)]
     q = tier == "quick"
-    lim = 300 if q else 1500
+    lim = 300 if q else 800
     out = [
         # 2 threads x 1 op, same file: every schedule
         ("get||upd", (BIG, A, [[g(0)], [u(0, U1)]]), None, None),
@@ -776,7 +776,7 @@ def plan(chk, rng):
         ("getA;updA||getB-evict", (6, AB, [[g(0), u(0, U1)], [g(1)]]), 2 if q else None, lim),
         # 3 threads x 1 op
         ("upd||upd||get", (BIG, A, [[u(0, U1)], [u(0, U2)], [g(0)]]), 1 if q else 2, lim),
-        ("get||upd||unl", (BIG, A, [[g(0)], [u(0, U1)], [x(0)]]), 1 if q else 2, 200 if q else 1500),
+        ("get||upd||unl", (BIG, A, [[g(0)], [u(0, U1)], [x(0)]]), 1 if q else 2, 200 if q else 800),
         ("getA||getA||getB-evict", (6, AB, [[g(0)], [g(0)], [g(1)]]), 1 if q else 2, lim),
     ]
     # the universes of the theorems (as the extracted model lists them)
@@ -789,11 +789,11 @@ def plan(chk, rng):
     else:
         for c in uni[0]:
             cfg = cfg_from_model(c[0])
-            out.append(("U21:" + cfg_name(cfg), cfg, None, 100))
+            out.append(("U21:" + cfg_name(cfg), cfg, None, 60))
         for nm, U in (("U22", uni[1]), ("U31", uni[2]), ("U2112", uni[3]), ("U31e", uni[4])):
             for c in U:
                 cfg = cfg_from_model(c[0])
-                out.append(("%s:%s" % (nm, cfg_name(cfg)), cfg, 2, 60))
+                out.append(("%s:%s" % (nm, cfg_name(cfg)), cfg, 2, 40))
         # beyond the theorems: 2x2 on two files, 3 threads x 2 ops (sampled, preemption bound 2)
         out += [
             ("updA;getB||updB;getA", (BIG, AB, [[u(0, U1), g(1)], [u(1, U2), g(0)]]), 2, 1000),
